@@ -7,7 +7,7 @@ import logging; logging.disable(logging.CRITICAL)
 
 sys.path.insert(0, '/verif')
 import harness.c16 as H
-rec = {'p': [3, 4, 1, 2, 7, 8, 5, 6], 'members': 8, 'problems': ["member '([)](())' is not a stem-uniform notation of the structure"], 'keys': ['BpSeq.all_dot_brackets:member-lossless'], 'stats': {'queries': 0, 'unknown': 0, 'solver_s': 0.0}, 'kind': 'pairing', 'dual_mismatch': False}
+rec = {'p': [3, 4, 1, 2, 7, 8, 5, 6], 'members': 8, 'problems': ["member '(())([)]' is not a stem-uniform notation of the structure"], 'keys': ['BpSeq.all_dot_brackets:member-lossless'], 'stats': {'queries': 0, 'unknown': 0, 'solver_s': 0.0}, 'kind': 'pairing', 'dual_mismatch': False}
 ok = H.replay(rec)
 print("property holds on this input (not reproduced)" if ok else "REPRODUCED", rec)
 sys.exit(0 if ok else 1)
